@@ -144,7 +144,30 @@ class Program:
 
     def _in_wrapper(self, fn):
         p = fn.npath
-        return any(p == w or p.startswith(w + "::{closure") for w in WRAPPERS)
+        if any(p == w or p.startswith(w + "::{closure") for w in WRAPPERS):
+            return True
+        return self._private_higher_order(fn)
+
+    def _private_higher_order(self, fn):
+        """A crate-private generic helper taking a closure (`fn step(&self, f: impl FnOnce(u16) -> u16)`) that is only ever
+        called with closures written in this crate: a call of its closure parameter runs crate code, not a user callback
+        (the closures' own effects are attributed at the call sites that pass them)."""
+        c = self.__dict__.setdefault("_pho", {})
+        if fn.id in c:
+            return c[fn.id]
+        c[fn.id] = False
+        ok = fn.kind != "closure" and fn.vis != "pub" and not (fn.impl_of and fn.impl_of.get("trait"))
+        n_calls = 0
+        if ok:
+            for g in self.fns.values():
+                for b in g.blocks:
+                    t = b["term"]
+                    if t["k"] == "call" and not t["callee"].get("indirect") and t["callee"].get("id") == fn.id:
+                        n_calls += 1
+                        if not [x for x in t["callee"].get("closure_args", []) if x in self.fns]:
+                            ok = False
+        c[fn.id] = bool(ok and n_calls)
+        return c[fn.id]
 
     def _classify_call(self, fn, bb, t):
         c = t["callee"]
@@ -236,7 +259,26 @@ class Program:
                 "ty": t["ty"], "kind": "drop", "ukind": "DROP" if t["has_param"] else None, "targets": [],
                 "needs_drop": t["needs_drop"], "exp": t.get("exp", [])}
         info["targets"] = [self.fns[d] for d in t["dtors"] if d in self.fns]
+        if t["has_param"] and not t["dtors"] and self._private_higher_order(fn) and self._closure_args_need_no_drop(fn) and ("<" not in t["ty"] or t["ty"].startswith("impl ")):
+            # dropping the (unused) closure argument of a crate-private higher-order helper: every closure ever passed captures nothing that needs dropping
+            info["ukind"] = None
+            info["has_param"] = False
         return info
+
+    def _closure_args_need_no_drop(self, fn):
+        c = self.__dict__.setdefault("_cand", {})
+        if fn.id in c:
+            return c[fn.id]
+        ok = True
+        for g in self.fns.values():
+            for b in g.blocks:
+                t = b["term"]
+                if t["k"] == "call" and not t["callee"].get("indirect") and t["callee"].get("id") == fn.id:
+                    nd = t["callee"].get("substs_needs_drop", [])
+                    if not nd or any(x is not False for x in nd):
+                        ok = False
+        c[fn.id] = ok
+        return ok
 
     # ---- may-U ---------------------------------------------------------------------------
     def _compute_mayU(self):
@@ -1108,7 +1150,29 @@ class Super:
             if v is not None:
                 return v
             return ("ret", np, args, "%s:bb%d" % (fn.npath, bb))
+        v = self._expanded_closure_result(ctx, bb)
+        if v is not None:
+            return v
         return ("ret", np, args, "%s:bb%d" % (fn.npath, bb))
+
+    def _expanded_closure_result(self, ctx, bb):
+        """A call of a closure *parameter* (`f(x)` in a private generic helper) whose closure is known here and was expanded: when
+        the closure computes its result in one place, that value (e.g. `old + 1` handed in by the caller)."""
+        if ctx.id < 0:
+            return None
+        n = self.blocks_of.get((ctx.id, bb))
+        if n is None or not n.inlined or getattr(n, "bound_closure", None) is None:
+            return None
+        subs = [c for c in self.ctxs if c.call_node is n and c.via == "closure"]
+        if len(subs) != 1:
+            return None
+        sub = subs[0]
+        defs = self._defs(sub.fn).get(0, [])
+        if len(defs) != 1 or 0 in sub.fn._partial:
+            return None
+        d = defs[0]
+        v = self.resolve_rv(sub, sub.fn.blocks[d[1]]["stmts"][d[2]]["rv"], None) if d[0] == "stmt" else self.resolve_call_value(sub, d[1])
+        return None if _mentions(v, ("phi", "undef")) else v
 
     def _expanded_tuple_result(self, ctx, bb):
         """A helper expanded at this call site that returns a tuple built in one place (`(a, b)` as its last expression): the
